@@ -100,7 +100,8 @@ fn resolve_array_mut(v: &mut Variant, indices: Vec<Variant>) -> Result<&mut Vari
                 .get_element_mut(&int_indices)
                 .map_err(RuntimeError::from)
         }
-        _ => panic!("Expected array, found {:?}", v),
+        // the DIM or REDIM of the array failed and the program went on (RESUME NEXT)
+        _ => Err(RuntimeError::SubscriptOutOfRange),
     }
 }
 
